@@ -1,5 +1,6 @@
 import GmQuic.Model.Res
 import GmQuic.Model.Frame
+import GmQuic.Gen.C03Tables
 /-!
 C03 — UDP datagram → QUIC packets, transliterated arm by arm from
 
@@ -61,9 +62,12 @@ inductive Packet
   | data (h : Hdr) (bytes : Bytes) (offset : Nat)
   deriving DecidableEq, Repr, Inhabited
 
-def maxCid : Nat := 20
-/-- the `payload_len < 20` / `remain.len() < 20` sampling minimum of `be_payload` / `be_packet` -/
-def minSample : Nat := 20
+/-- `MAX_CID_SIZE` (generated from connection_id.rs) -/
+def maxCid : Nat := GmQuic.Gen.C03.maxCidSize
+/-- the `payload_len < 20` sampling minimum of `be_payload` (generated from packet/io.rs) -/
+def minSampleLong : Nat := GmQuic.Gen.C03.minSampleLong
+/-- the `remain.len() < 20` sampling minimum of the 1-RTT arm of `be_packet` (generated from packet/io.rs) -/
+def minSampleShort : Nat := GmQuic.Gen.C03.minSampleShort
 
 /-! ### packet type -/
 
@@ -146,7 +150,7 @@ def bePayload (t : PTy) (dg : Bytes) (remainLen : Nat) : PRes (Bytes × Nat) :=
   | .err _ => .panic "qbase/src/packet/io.rs:be_payload:unreachable"
   | .panic s => .panic s
   | .ok payload remain =>
-    if payload.length < minSample then .err (.underSampling t payload.length) else
+    if payload.length < minSampleLong then .err (.underSampling t payload.length) else
     if remain.length > dg.length then .panic "qbase/src/packet/io.rs:be_payload:datagram.len()-remain.len()" else
     let packetLength := dg.length - remain.length
     -- `datagram.split_to(packet_length)` (panics beyond len: excluded by the line above)
@@ -171,7 +175,7 @@ def bePacket (dg : Bytes) (dcidLen : Nat) : PRes Packet :=
          | .err e => .err e
          | .panic s => .panic s)
       | .oneRtt .. =>
-        if remain.length < minSample then .err (.underSampling t remain.length)
+        if remain.length < minSampleShort then .err (.underSampling t remain.length)
         else if remain.length > dg.length then .panic "qbase/src/packet/io.rs:be_packet:bytes.len()-remain_len"
         else .ok (.data hdr dg (dg.length - remain.length)) []
 
@@ -287,6 +291,6 @@ def demux (bs : Bytes) : Demux :=
     | some n => .forward src dst (bs.length - rest.length) (bs.drop n)
 
 /-- the QUIC connection-ID length the deployed receive task parses short headers with -/
-def deployedDcidLen : Nat := 8
+def deployedDcidLen : Nat := GmQuic.Gen.C03.deployedDcidLen
 
 end GmQuic.PacketDec
